@@ -167,6 +167,10 @@ def build_case(dev: str, seq: Sequence[int], mode: str, use_clamped: bool, place
     if placement == "setup":
         src = common.script(decl.split("\n") + lines, prologue=PRO)
         passes = 0
+    elif placement == "helper_above":
+        # the commands live in a helper that is defined ABOVE the device declaration and called after it
+        src = common.script(["def act():"] + common.indent(lines) + decl.split("\n") + ["act()"], ["act()"], prologue=PRO)
+        passes = 1
     else:
         src = common.script(decl.split("\n"), lines, prologue=PRO)
         passes = 2
@@ -188,7 +192,52 @@ CORES = {
 }
 
 
+# -- order of evaluation: every numeric argument is an expression over nxt() (1, 2, 3, ... in the order the calls are
+# evaluated), the arguments are written in every way Python accepts (first j positionally, the rest as keywords in every
+# order); host and firmware must agree, i.e. the firmware evaluates the arguments in the order written
+ORDER_METHODS = [
+    ("led", "blink", ["duration_ms", "times"]), ("led", "fade_in", ["step", "delay_ms"]), ("led", "fade_out", ["step", "delay_ms"]),
+    ("rgb", "set_color", ["red", "green", "blue"]), ("rgb", "on", ["red", "green", "blue"]), ("rgb", "blink", ["red", "green", "blue", "times", "delay_ms"]),
+    ("rgb", "fade", ["red", "green", "blue", "duration_ms", "steps"]), ("motor", "ramp", ["target_speed", "duration_ms"]), ("motor", "run_for", ["duration_ms", "speed"]),
+]
+ORDER_EXPR = {"duration_ms": "nxt() * 10", "delay_ms": "nxt() * 10", "times": "nxt()", "steps": "nxt() + 1", "step": "nxt() * 40", "red": "nxt() * 20", "green": "nxt() * 20", "blue": "nxt() * 20",
+              "target_speed": "nxt() / 10", "speed": "nxt() / 10"}
+ORDER_DEFS = ["cur = 0", "def nxt():", "    global cur", "    cur = cur + 1", "    return cur"]
+
+
+def gen_order(tier: str) -> Iterator[dict]:
+    for dev, meth, params in ORDER_METHODS:
+        decl, name, _, getters = DEVICES[dev]
+        shapes = []
+        for j in range(len(params) + 1):
+            for perm in itertools.permutations(params[j:]):
+                shapes.append((j, perm))
+        if tier != "thorough" and len(params) == 5:
+            # five parameters: all orders of the keywords when at most two are positional is 150 shapes; quick keeps the
+            # shapes whose keyword part is a rotation or the reversal of the signature order
+            keep = []
+            for j, perm in shapes:
+                rest = tuple(params[j:])
+                rots = {rest[k:] + rest[:k] for k in range(len(rest))} | {rest[::-1]}
+                if perm in rots:
+                    keep.append((j, perm))
+            shapes = keep
+        for j, perm in shapes:
+            parts = [ORDER_EXPR[p] for p in params[:j]] + [f"{p}={ORDER_EXPR[p]}" for p in perm]
+            lines = [f"{name}.{meth}({', '.join(parts)})"] + [f"mon.write({g.format(n=name)})" for g in getters]
+            # (fade only before the loop: in a second pass the larger step counts reach exact .5 interpolation points,
+            #  which is KF-C04-rgb-fade-half-rounding's subject, not this space's)
+            for placement in (("setup", "loop") if len(perm) == len(params) and meth != "fade" else ("setup",)):
+                if placement == "setup":
+                    src = common.script(ORDER_DEFS + decl.split("\n") + lines, prologue=PRO)
+                else:
+                    src = common.script(ORDER_DEFS + decl.split("\n"), lines, prologue=PRO)
+                yield {"id": f"order:{dev}:{meth}:{j}:{','.join(perm)}:{placement}", "src": src, "runs": [{"passes": 0 if placement == "setup" else 2}], "dev": dev, "oor": False, "pair": None}
+
+
 def generate(tier: str, only=None) -> Iterator[dict]:
+    if not only or "order" in only:
+        yield from gen_order(tier)
     for dev, (decl, name, ops, getters) in DEVICES.items():
         if only and dev not in only:
             continue
@@ -207,6 +256,8 @@ def generate(tier: str, only=None) -> Iterator[dict]:
             seen.add(seq)
             for mode in ("lit", "rt"):
                 placements = ("setup", "loop") if (len(seq) == 1 or tier == "thorough") else ("setup",)
+                if mode == "lit" and len(seq) == 1:
+                    placements = placements + ("helper_above",)
                 if mode == "rt" and len(seq) > 2 and not (tier == "thorough" and len(seq) == 3 and all(i in core for i in seq)):
                     continue
                 for placement in placements:
